@@ -148,7 +148,7 @@ def _corr_doc(arg):
 def correspondence(ctx):
     r = Result()
     common.impl()
-    docs = _docs(ctx, 'corr-docs', ctx.pick(8000, 80000))
+    docs = _docs(ctx, 'corr-docs', ctx.pick(8000, 50000))
     res = gen.pmap(_corr_doc, [(s, str(ctx.seed)) for s in docs], chunk=50)
     reqs = [q for per in res for q, _, _ in per]
     model = common.model_batch_parallel(reqs)
@@ -271,7 +271,7 @@ def oracle(ctx, seeds, scale):
     r = Result()
     common.impl()
     docs = [s for s in seeds if isinstance(s, str)]
-    docs += _docs(ctx, 'oracle-docs', ctx.pick(8000, 80000) * scale)
+    docs += _docs(ctx, 'oracle-docs', ctx.pick(8000, 50000) * scale)
     res = gen.pmap(_oracle_doc, [(s, str(ctx.seed)) for s in docs], chunk=50)
     for s, (st, fails) in zip(docs, res):
         r.count(('doc', s), st.get('results', 0) > 0)
